@@ -214,3 +214,60 @@ Proof.
   injection H as <-. destruct dups; [|reflexivity].
   symmetry. apply (checker_loop_cmp outs keys [] false seen true C [] (fun _ _ => eq_refl)).
 Qed.
+
+Lemma In_firstn_In : forall {A} (l : list A) n x, In x (firstn n l) -> In x l.
+Proof.
+  intros A l. induction l as [|y t IH]; intros [|n] x H; cbn in H; try contradiction.
+  destruct H as [->|H]; [left; reflexivity | right; eapply IH; exact H].
+Qed.
+
+(* ---- the guarded LIMIT push-down (repair e34ecad) cannot be observed ------------------------------------------------ *)
+Lemma count_true_all : forall m, forallb (fun b => b) m = true -> count_true m = length m.
+Proof.
+  induction m as [|b m IH]; intro H; [reflexivity|]. cbn in H. apply andb_prop in H. destruct H as [-> H].
+  unfold count_true in *. cbn. f_equal. apply IH. exact H.
+Qed.
+
+Lemma table_limit_firstn : forall {A} n (rows : list A) k, 0 < n -> (Z.to_nat n <= k)%nat ->
+  table_limit n (firstn k rows) = table_limit n rows.
+Proof.
+  intros A n rows k Hn Hk. unfold table_limit. rewrite firstn_length.
+  replace (n <? 0) with false by (symmetry; apply Z.ltb_ge; lia).
+  destruct (n <? Z.of_nat (length rows)) eqn:E1.
+  - apply Z.ltb_lt in E1.
+    destruct (n <? Z.of_nat (Nat.min k (length rows))) eqn:E2.
+    + rewrite firstn_firstn. rewrite Nat.min_l by lia. reflexivity.
+    + apply Z.ltb_ge in E2. assert (K : k = Z.to_nat n) by lia. rewrite K. reflexivity.
+  - apply Z.ltb_ge in E1.
+    replace (n <? Z.of_nat (Nat.min k (length rows))) with false by (symmetry; apply Z.ltb_ge; lia).
+    rewrite firstn_all2 by lia. reflexivity.
+Qed.
+
+Theorem guarded_pushdown_unobservable : forall srt mask c lim rows,
+  (forall m, mask = Some m -> length m = length rows) ->     (* one mask entry per triple, every triple gives a row *)
+  exec_order_limit_with srt true mask c lim rows = order_limit_with srt c lim rows.
+Proof.
+  intros srt mask c lim rows Hm. unfold exec_order_limit_with, pushdown_mask.
+  destruct mask as [m|]; [|destruct c as [[|]|]; reflexivity].
+  destruct c as [[|k ks]|]; try reflexivity.
+  - destruct (forallb (fun b => b) m) eqn:A; [|reflexivity].
+    unfold fetch_pushdown. destruct lim as [n|]; [|reflexivity].
+    destruct (0 <? n) eqn:P; [|reflexivity]. apply Z.ltb_lt in P.
+    unfold order_limit_with. cbn [order_by_with bind plan_limit].
+    rewrite count_true_all by (apply forallb_forall; intros x Hx; rewrite forallb_forall in A; apply A;
+                               eapply (In_firstn_In); exact Hx).
+    rewrite firstn_length, (Hm m eq_refl).
+    destruct (Nat.le_ge_cases (Z.to_nat n) (length rows)).
+    + rewrite Nat.min_l by lia. apply table_limit_firstn; lia.
+    + rewrite Nat.min_r by lia. rewrite firstn_all. reflexivity.
+  - destruct (forallb (fun b => b) m) eqn:A; [|reflexivity].
+    unfold fetch_pushdown. destruct lim as [n|]; [|reflexivity].
+    destruct (0 <? n) eqn:P; [|reflexivity]. apply Z.ltb_lt in P.
+    unfold order_limit_with. cbn [order_by_with bind plan_limit].
+    rewrite count_true_all by (apply forallb_forall; intros x Hx; rewrite forallb_forall in A; apply A;
+                               eapply (In_firstn_In); exact Hx).
+    rewrite firstn_length, (Hm m eq_refl).
+    destruct (Nat.le_ge_cases (Z.to_nat n) (length rows)).
+    + rewrite Nat.min_l by lia. apply table_limit_firstn; lia.
+    + rewrite Nat.min_r by lia. rewrite firstn_all. reflexivity.
+Qed.
